@@ -1,0 +1,70 @@
+//go:build verif
+
+package fasthttp
+
+import "net"
+
+// Thin exports for the /verif correspondence harness (property C18: HostClient connection pool).
+// AcquireConn, ReleaseConn, CloseConn, ConnsCount, CloseIdleConnections are used through the public API.
+
+// VerifC18Want wraps a wantConn so that the harness can play the wait path of
+// AcquireConn one lock region at a time (queueForIdle, the select, cancel).
+type VerifC18Want struct{ w *wantConn }
+
+// VerifC18NewWant allocates a wantConn exactly as AcquireConn does.
+func VerifC18NewWant() *VerifC18Want {
+	return &VerifC18Want{w: &wantConn{ready: make(chan struct{}, 1)}}
+}
+
+// Key identifies the wantConn inside VerifC18Snapshot.Wait.
+func (v *VerifC18Want) Key() any { return v.w }
+
+func (c *HostClient) VerifC18QueueForIdle(v *VerifC18Want) { c.queueForIdle(v.w) }
+
+func (c *HostClient) VerifC18Cancel(v *VerifC18Want, err error) { v.w.cancel(c, err) }
+
+// Conn is what `case <-w.ready: return w.conn, w.err` returns.
+func (v *VerifC18Want) Conn() (*clientConn, error) {
+	v.w.mu.Lock()
+	defer v.w.mu.Unlock()
+	return v.w.conn, v.w.err
+}
+
+// VerifC18WantState reports (waiting(), conn, err) of a wantConn given by key.
+func VerifC18WantState(key any) (waiting bool, conn net.Conn, err error) {
+	w := key.(*wantConn)
+	waiting = w.waiting()
+	w.mu.Lock()
+	defer w.mu.Unlock()
+	if w.conn != nil {
+		conn = w.conn.c
+	}
+	return waiting, conn, w.err
+}
+
+// VerifC18Snapshot is the pool state under connsLock.
+type VerifC18Snapshot struct {
+	ConnsCount int
+	Idle       []net.Conn // c.conns in slice order
+	Wait       []any      // c.connsWait in queue order (keys of wantConns)
+}
+
+func (c *HostClient) VerifC18Snapshot() VerifC18Snapshot {
+	c.connsLock.Lock()
+	defer c.connsLock.Unlock()
+	s := VerifC18Snapshot{ConnsCount: c.connsCount}
+	for _, cc := range c.conns {
+		s.Idle = append(s.Idle, cc.c)
+	}
+	if q := c.connsWait; q != nil {
+		for _, w := range q.head[q.headPos:] {
+			s.Wait = append(s.Wait, w)
+		}
+		for _, w := range q.tail {
+			s.Wait = append(s.Wait, w)
+		}
+	}
+	return s
+}
+
+func (c *HostClient) VerifC18DecConnsCount() { c.decConnsCount() }
